@@ -75,9 +75,9 @@ def draw(rng):
         B = float(rng.uniform(*BOX['B']))
         C = float(rng.uniform(*BOX['C_over_B'])) * B
         nd = int(rng.integers(3, 6))
-        ds = sorted(rng.choice([3, 4, 5, 6, 7, 8, 9, 11, 13], size=nd,
-                               replace=False).tolist())
-        m = int(rng.integers(7, 14))
+        ds = sorted(rng.choice([3, 4, 5, 6, 7, 8, 9, 10, 11, 12, 13],
+                               size=nd, replace=False).tolist())
+        m = int(rng.integers(9, 14))
         prm = (p_th, nu, A, B, C)
         dmax = max(ds)
         w = 0.3 * p_th
@@ -98,7 +98,9 @@ def draw(rng):
         fe = [planted(ps[-1], d, prm) for d in ds]
         if max(fe) - min(fe) < 0.02:
             continue
-        return {'prm': prm, 'ds': ds, 'ps': ps.tolist(), 'w': w}
+        drop = [int(x) for x in rng.integers(0, 3, size=len(ds))]
+        return {'prm': prm, 'ds': ds, 'ps': ps.tolist(), 'w': w,
+                'drop': drop}
     raise RuntimeError('could not draw a well-conditioned data set')
 
 
@@ -134,8 +136,13 @@ def record(L, p, n_trials, n_fail, rng, out_of_codespace=0.0):
 def write_dataset(rng, ds, root, mode, ooc=0.0):
     N = N_EXACT if mode == 'exact' else N_BINOM
     recs = []
-    for L in ds['ds']:
-        for p in ds['ps']:
+    for li, L in enumerate(ds['ds']):
+        ps_L = list(ds['ps'])
+        # distances are sampled on unequal grids: drop end points for some
+        drop = ds.get('drop', [0] * len(ds['ds']))[li]
+        if drop and len(ps_L) - 2 * drop >= 7:
+            ps_L = ps_L[drop:len(ps_L) - drop]
+        for p in ps_L:
             f = float(planted(p, L, ds['prm']))
             f = min(max(f, 0.0), 1.0)
             n_fail = int(round(N * f)) if mode == 'exact' else \
@@ -158,7 +165,18 @@ def write_dataset(rng, ds, root, mode, ooc=0.0):
                 continue
             data = [record(L, p, n, nf, np.random.default_rng(
                 [int(L), int(round(p * 1e6))]), ooc) for L, p, n, nf in fl]
-            name = os.path.join(d, f'{chr(122 - fi)}{fi}.json.gz')
+            if o == 2:
+                # per-job directories reusing one file name, mixed
+                # compression
+                jd = os.path.join(d, f'job_{fi}')
+                os.makedirs(jd)
+                if fi % 2:
+                    with open(os.path.join(jd, 'results.json'), 'w') as f:
+                        json.dump(data, f)
+                    continue
+                name = os.path.join(jd, 'results.json.gz')
+            else:
+                name = os.path.join(d, f'{chr(122 - fi)}{fi}.json.gz')
             with gzip.open(name, 'wb', compresslevel=1) as f:
                 f.write(json.dumps(data).encode())
         orderings.append(d)
